@@ -2,6 +2,7 @@
 package props
 
 import (
+	"sync"
 	"encoding/json"
 	"errors"
 	"fmt"
@@ -182,3 +183,11 @@ func logPanic(evs []rec.Event) string {
 	}
 	return ""
 }
+
+// Once a class of cases has run into the wall-clock watchdog (which only happens on a tree that
+// hangs there), its remaining cases are skipped: each would cost another watchdog period and the
+// run's verdict for the class is already established (violation or inconclusive, never "held").
+var givenUp sync.Map
+
+func giveUp(class string)      { givenUp.Store(class, true) }
+func gaveUp(class string) bool { _, ok := givenUp.Load(class); return ok }
